@@ -40,7 +40,7 @@ def separate_into_sections(pattern=DEFAULT_SECTION_PATTERN, independent=True, re
         pass
     report[TOOL_NAME]['independent'] = independent
     report[TOOL_NAME]['section'] = 0
-    report[TOOL_NAME]['section_group'] = FeedbackSourceSection(0)
+    report[TOOL_NAME]['section_group'] = FeedbackSourceSection(0, report=report)
     report.start_group(report[TOOL_NAME]['section_group'])
     report.submission.clear_line_offsets()
     report[TOOL_NAME]['section_pattern'] = pattern
@@ -96,7 +96,7 @@ def next_section(name="", report=MAIN_REPORT):
     source['section'] += 2
     section_index = source['section']
     section_number = _calculate_section_number(section_index)
-    report[TOOL_NAME]['section_group'] = FeedbackSourceSection(section_number)
+    report[TOOL_NAME]['section_group'] = FeedbackSourceSection(section_number, report=report)
     sections = source['sections']
     # The prologue before the first marker does not count as a section
     found = int((len(source['sections']) - 1) / 2)
@@ -119,7 +119,7 @@ def next_section(name="", report=MAIN_REPORT):
     else:
         # The whole file stays in place, so its lines are not shifted
         report.submission.clear_line_offsets()
-        not_enough_sections(section_number, found)
+        not_enough_sections(section_number, found, report=report)
     report.execute_hooks(TOOL_NAME, 'next_section.after')
 
 
